@@ -160,6 +160,50 @@ def env_flip_stage(rep, rng, groups):
     return bad
 
 
+def seq_group(docs, env):
+    """one process evaluates the documents in order (separate parsers); each result is compared with a fresh process's"""
+    fixed = [to_op({"steps": [{"merge": {"id": "D0", "parents": [], "data": d}}, {"outdocs": True}], "env": env}, i) for i, d in enumerate(docs)]
+    same = run_go(fixed)                                  # fewer than 50 ops: ONE process, in order
+    envp = dict(os.environ, BKLGO_TIMEOUT_MS="60000")
+    out = []
+    for op in fixed:
+        p = subprocess.run([os.path.join(BIN, "bklgo")], input=json.dumps(op) + "\n", capture_output=True, text=True, env=envp, timeout=120)
+        try:
+            fresh = json.loads(p.stdout.strip().split("\n")[-1])
+        except Exception:
+            continue
+        a_, b_ = strip_err({"res": (same.get(op["id"]) or {}).get("res", [])}), strip_err({"res": fresh.get("res", [])})
+        out.append((op["id"], a_ == b_, same.get(op["id"]), fresh))
+    return out
+
+
+def leak_stage(rep, rng, groups):
+    """evaluation state must not outlive an evaluation: a document that BINDS something (named or plain repeat indices,
+    environment lookups, encoded blobs, interpolated strings) is evaluated first, then, in the same process, documents that
+    USE such names without binding them, or that look like the first one; each must give what a fresh process gives"""
+    bad = []
+    for g in range(groups):
+        nm = rng.choice(["x", "y", "name"])
+        binders = [{"$repeat": {nm: rng.choice([2, 3])}, "v": "$\"{$repeat:%s}\"" % nm},
+                   {"$repeat": rng.choice([2, 3]), "v": "$\"i{$repeat}\"", "w": "$repeat"},
+                   {"l": [{"$repeat": 2, "v": "$\"n{$repeat}\""}]},
+                   {"a": 1, "t": "$\"<{a}>\"", "e": {"$encode": "json", "$value": {"a": 1}}},
+                   {"h": "$env:HOME", "t": "$\"{$env:HOME}/x\""}]
+        users = [{"v": "$\"{$repeat:%s}\"" % nm}, {"v": "$\"i{$repeat}\""}, {"w": "$repeat"}, {"v": "$\"{$repeat.%s}\"" % nm},
+                 {"a": 2, "t": "$\"<{a}>\"", "e": {"$encode": "json", "$value": {"a": "1"}}},
+                 {"t": "$\"{$env:HOME}/x\""}, {"v": "$\"{%s}\"" % nm}]
+        # every binder in turn, followed by every user
+        docs = [binders[g % len(binders)]] + (users if g < len(binders) else rng.sample(users, rng.randint(1, 3)))
+        env = rng.choice([gen.ENV, {}])
+        for idx, ok, same, fresh in seq_group(docs, env):
+            rep.case(["leak", docs, idx], True)
+            rep.count("leak:compared")
+            if not ok and not any(c.get("leak") for c, _, _ in bad):
+                bad.append(({"leak": {"docs": docs, "env": env}, "steps": []}, {"position": idx, "same_process": same, "fresh_process": fresh},
+                            "an evaluation depends on what was evaluated before it in the same process: its result differs from a fresh process's"))
+    return bad
+
+
 def gen_case(rng):
     r0 = rng.random()
     if r0 < 0.04:
@@ -243,6 +287,7 @@ def run(rep):
     cases = [c for _, c in load_corpus(PID)] + [gen_case(rng) for _ in range(n)]
     bad = run_batch(rep, cases, 20, 32, fresh=40 if rep.tier == "quick" else 400)
     bad += env_flip_stage(rep, rng, 30 if rep.tier == "quick" else 600)
+    bad += leak_stage(rep, rng, 25 if rep.tier == "quick" else 500)
     if rep.tier == "thorough" and os.path.exists(os.path.join(BIN, "bklgo-race")):
         sub = cases[: 4000]
         bad += run_batch(rep, sub, 3, 16, binary="bklgo-race")
@@ -260,6 +305,11 @@ def replay(rep, payload):
     c = payload["case"]
     if "envflip" in c:
         res = env_flip_group(c["envflip"]["doc"], c["envflip"]["envs"])
+        for r in res:
+            print(r)
+        return 1 if any(not ok for _, ok, _, _ in res) else 0
+    if "leak" in c:
+        res = seq_group(c["leak"]["docs"], c["leak"]["env"])
         for r in res:
             print(r)
         return 1 if any(not ok for _, ok, _, _ in res) else 0
